@@ -11,7 +11,7 @@ from .._backends.base import SOCKET_OPTION, NetworkBackend, NetworkStream
 from .._exceptions import ConnectError, ConnectTimeout
 from .._models import Origin, Request, Response
 from .._ssl import default_ssl_context
-from .._synchronization import Lock
+from .._synchronization import Lock, ShieldCancellation
 from .._trace import Trace
 from .http11 import HTTP11Connection
 from .interfaces import ConnectionInterface
@@ -152,9 +152,16 @@ class HTTPConnection(ConnectionInterface):
                         or self._origin.host.decode("ascii"),
                         "timeout": timeout,
                     }
-                    with Trace("start_tls", logger, request, kwargs) as trace:
-                        stream = stream.start_tls(**kwargs)
-                        trace.return_value = stream
+                    try:
+                        with Trace("start_tls", logger, request, kwargs) as trace:
+                            stream = stream.start_tls(**kwargs)
+                            trace.return_value = stream
+                    except BaseException as exc:
+                        # Backends close the stream if the handshake fails, but
+                        # not if it is cancelled: don't leak the socket.
+                        with ShieldCancellation():
+                            stream.close()
+                        raise exc
                 return stream
             except (ConnectError, ConnectTimeout):
                 if retries_left <= 0:
